@@ -60,6 +60,7 @@ class Context:
         self.fn_analysed = set()
         self.rules_doc = {}
         self.unit = ''  # label of the unit (flavour:file) currently evaluated
+        self._share = None
 
     def close(self):
         self.wd.cleanup()
@@ -190,6 +191,20 @@ class Context:
             m = Module(self._extract(ll), tag='%s:%s' % (flavour, file))
             os.unlink(prep)
             self._mods[key] = m
+            # a static inline root that lost its last caller is not emitted into this unit although the source still defines
+            # it: analyse it through a scratch unit that references it (a genuinely removed function fails to compile there
+            # and stays a vanished anchor)
+            missing = [r for r in roots if m.fn(r) is None]
+            if missing and area == 'src' and not kw:
+                try:
+                    path, ekw = self.emit_unit(missing, flavour, file)
+                    m2 = self.view(path, roots, stops, **ekw)
+                    if all(m2.fn(r) is not None for r in missing):
+                        self.note('view of %s: %s defined but unreferenced; analysed through a force-emitting scratch unit'
+                                  % (file, ', '.join(missing)))
+                        self._mods[key] = m2
+                except AnalysisBroken:
+                    pass
         return self._mods[key]
 
     def o2(self, file, flavour='vanilla', area='src'):
@@ -214,15 +229,46 @@ class Context:
         self.fn_analysed.add(name)
         return f
 
+    def shared(self, mapping, keep=None, doc=None, floor=None):
+        """context manager: run rule functions of another property's module and record, under this property's rule ids, the
+        obligations that are also necessary conditions of this property.  mapping: their rule id -> ours; keep(instance) selects
+        instances; everything else the callee states is not recorded here (it is decided by its own property's check)."""
+        ctx = self
+
+        class _S:
+            def __enter__(self_):
+                self_.prev = ctx._share
+                self_.n0 = len(ctx.obligations)
+                ctx._share = (mapping, keep)
+
+            def __exit__(self_, *a):
+                ctx._share = self_.prev
+                for mine in set(mapping.values()):
+                    if doc:
+                        ctx.rules_doc[mine] = doc
+                    if floor:
+                        ctx.floor(mine, floor)
+                return False
+        return _S()
+
     def ob(self, rule, key, ok, what, loc='', detail='', trace=None):
+        if self._share is not None:
+            mapping, keep = self._share
+            if rule not in mapping or (keep is not None and not keep(key)):
+                return Obligation(rule, key, loc, bool(ok), what, detail, trace, self.unit)
+            rule = mapping[rule]
         o = Obligation(rule, key, loc, bool(ok), what, detail, trace, self.unit)
         self.obligations.append(o)
         return o
 
     def floor(self, rule, n):
+        if self._share is not None and rule not in set(self._share[0].values()):
+            return
         self.floors[rule] = max(self.floors.get(rule, 0), n)
 
     def doc(self, rule, text):
+        if self._share is not None:
+            return
         self.rules_doc[rule] = text
 
     def note(self, s):
